@@ -776,6 +776,11 @@ impl Walrus {
                 });
                 planned_bytes += (end - cur_off) as usize;
             }
+            if end < block.used {
+                // The byte budget ended inside this sealed block: later blocks (and the
+                // writer tail) must not be planned, or the rest of this block is skipped.
+                break;
+            }
             cur_idx += 1;
             cur_off = 0;
         }
